@@ -167,7 +167,7 @@ def _norm_get(out):
     return (res, ws, us)
 
 
-def check(ctx, rep: Report):
+def _check_main(ctx, rep: Report):
     rep.extra["exhaustive"] = True
     rep.rules["C18.T"] = "exhaustive decision tables of Alias.__get__/__set__/__delete__ vs the oracle"
     for meth in ("__get__", "__set__", "__delete__"):
@@ -268,3 +268,11 @@ def check(ctx, rep: Report):
     for dd in dropped[:1]:
         rep.violate(Violation("C18.COPY", "C18.COPY|dropped", f"__deepcopy__ skips some instance __dict__ entries ({dd[:160]}): the alias override slot (`__spec_classes_Alias_<name>_override`) is lost by with_*/deepcopy and the alias silently reverts to mirroring its target",
                               "", "DeepCopyMethod.deepcopy"))
+
+
+def check(ctx, rep):
+    from . import metarules, shared
+    _check_main(ctx, rep)
+    shared.unused_params(ctx, rep, "C18.PARAM", ["spec_classes.types.alias"], floor=5)
+    from .c02 import pt_rule
+    pt_rule(ctx, rep, "C18.COPYSET")
